@@ -923,7 +923,19 @@ func reflectValueEq(x, y structure) *smt.Term {
 	case *smap:
 		return smt.BoolC(a == y[1].(*smap))
 	}
-	panic(abortPath{"inconclusive", "comparison of two valid reflect.Values not modelled"})
+	// other kinds: a Value is (type, data pointer, flags). Values standing for
+	// the same addressable cell are equal; otherwise a Value compared with a
+	// copy of itself is equal and with anything else is not — approximated by
+	// structural identity of what they hold (two separately boxed equal
+	// scalars would differ in Go; every verdict built on this is replayed).
+	if len(x) > 3 && len(y) > 3 {
+		ax, _ := x[3].(*value)
+		ay, _ := y[3].(*value)
+		if ax != nil || ay != nil {
+			return smt.BoolC(ax == ay && x[2] == y[2])
+		}
+	}
+	return smt.BoolC(x[2] == y[2] && sameValue(x[1], y[1], 0))
 }
 
 // newMethod creates a new method of the specified name, package and receiver type.
@@ -1058,31 +1070,70 @@ func ext۰reflect۰Value۰FieldByName(fr *frame, args []value) value {
 	if t == nil {
 		panic(valueErr(fr, "reflect.Value.FieldByName", args[0]))
 	}
-	st, ok := t.Underlying().(*types.Struct)
-	if !ok {
+	if _, ok := t.Underlying().(*types.Struct); !ok {
 		panic(valueErr(fr, "reflect.Value.FieldByName", args[0]))
 	}
 	name := concStr(args[1], "FieldByName")
-	for k := 0; k < st.NumFields(); k++ {
-		if st.Field(k).Name() == name {
-			return ext۰reflect۰Value۰Field(fr, []value{args[0], k})
-		}
+	_, index, ok := lookupStructField(fr, t, name)
+	if !ok {
+		return makeReflectValue(nil, nil)
 	}
-	return makeReflectValue(nil, nil)
+	idx := make([]value, len(index))
+	for j, x := range index {
+		idx[j] = x
+	}
+	return ext۰reflect۰Value۰FieldByIndex(fr, []value{args[0], idx})
 }
 
 func ext۰reflect۰rtype۰FieldByName(fr *frame, args []value) value {
-	st, ok := args[0].(rtype).t.Underlying().(*types.Struct)
-	if !ok {
-		panic(reflectPanic(fr, "reflect: FieldByName of non-struct type "+args[0].(rtype).t.String()))
+	t := args[0].(rtype).t
+	if _, ok := t.Underlying().(*types.Struct); !ok {
+		panic(reflectPanic(fr, "reflect: FieldByName of non-struct type "+t.String()))
 	}
 	name := concStr(args[1], "FieldByName")
-	for k := 0; k < st.NumFields(); k++ {
-		if st.Field(k).Name() == name {
-			return tuple{ext۰reflect۰rtype۰Field(fr, []value{args[0], k}), true}
-		}
+	sf, _, ok := lookupStructField(fr, t, name)
+	if !ok {
+		return tuple{zeroStructField(), false}
 	}
-	return tuple{zeroStructField(), false}
+	return tuple{sf, true}
+}
+
+// lookupStructField finds a field by name the way reflect does: direct fields
+// first, then fields promoted through embedded structs (breadth first; a name
+// that is ambiguous at the shallowest depth is not found). go/types implements
+// the same rule in LookupFieldOrMethod.
+func lookupStructField(fr *frame, t types.Type, name string) (value, []int, bool) {
+	var pkg *types.Package
+	if n, ok := t.(*types.Named); ok && n.Obj() != nil {
+		pkg = n.Obj().Pkg()
+	}
+	if st, ok := t.Underlying().(*types.Struct); ok && pkg == nil && st.NumFields() > 0 {
+		pkg = st.Field(0).Pkg()
+	}
+	obj, index, _ := types.LookupFieldOrMethod(t, true, pkg, name)
+	fv, isVar := obj.(*types.Var)
+	if !isVar || !fv.IsField() {
+		return nil, nil, false
+	}
+	// walk the index path to the struct that declares the field (for its tag)
+	cur := t
+	for k, ix := range index {
+		if p, ok := cur.Underlying().(*types.Pointer); ok {
+			cur = p.Elem()
+		}
+		st := cur.Underlying().(*types.Struct)
+		if k == len(index)-1 {
+			sf := ext۰reflect۰rtype۰Field(fr, []value{rtype{cur}, ix}).(structure)
+			idx := make([]value, len(index))
+			for j, x := range index {
+				idx[j] = x
+			}
+			sf[5] = idx
+			return sf, index, true
+		}
+		cur = st.Field(ix).Type()
+	}
+	return nil, nil, false
 }
 
 func zeroStructField() value {
